@@ -284,13 +284,13 @@ def worker_footprint(seed, tier):
 def make_frames(n, seed):
     import numpy as np
     from spatialpandas import GeoDataFrame
-    from spatialpandas.geometry import (LineArray, MultiPointArray, MultiPolygonArray, PointArray,
+    from spatialpandas.geometry import (LineArray, MultiLineArray, MultiPointArray, MultiPolygonArray, PointArray,
                                         PolygonArray)
     rs = np.random.RandomState(seed)
     xy = rs.randint(0, 1000, size=(n, 2)).astype('float64') / 8.0
     xy = xy[np.lexsort((xy[:, 1], xy[:, 0]))]      # input partitions are vertical stripes
     pts = [list(p) for p in xy]
-    mps, lns, pgs, mpgs = [], [], [], []
+    mps, lns, pgs, mpgs, mls = [], [], [], [], []
     for i in range(n):
         x, y = xy[i]
         k = 1 + i % 3
@@ -299,8 +299,10 @@ def make_frames(n, seed):
         sq = [x, y, x + 2, y, x + 2, y + 2, x, y + 2, x, y]
         pgs.append(None if i % 97 == 5 else [sq])
         mpgs.append([[sq], [[x + 5, y, x + 6, y, x + 6, y + 1, x + 5, y]]])
+        mls.append(None if i % 89 == 7 else [[x, y, x + 1, y + 2], [x + 3, y - 1, x + 4 + i % 3, y + 0.5, x + 2, y]])
     df = GeoDataFrame({'id': np.arange(n), 'pt': PointArray(pts), 'mp': MultiPointArray(mps),
-                       'ln': LineArray(lns), 'pg': PolygonArray(pgs), 'mpg': MultiPolygonArray(mpgs)})
+                       'ln': LineArray(lns), 'pg': PolygonArray(pgs), 'mpg': MultiPolygonArray(mpgs),
+                       'ml': MultiLineArray(mls)})
     m = 30
     rxy = rs.randint(0, 110, size=(m, 2)).astype('float64')
     rpg = [[[x, y, x + 9, y, x + 9, y + 7, x, y + 7, x, y]] for x, y in rxy]
@@ -327,8 +329,13 @@ def make_large(n, seed):
     from spatialpandas.geometry import (LineArray, MultiLineArray, MultiPointArray, MultiPolygonArray,
                                         PointArray, PolygonArray, RingArray)
     rs = np.random.RandomState(seed)
-    x = rs.randint(0, 4000, n) / 4.0
-    y = rs.randint(0, 4000, n) / 4.0
+    # (a quarter-grid plus a full-mantissa fraction: the coordinates are not dyadic, so any reduction
+    # whose order depended on the thread count would show in the last bit)
+    # (the points themselves stay on the grid: they must lie exactly on the query shapes)
+    gx = rs.randint(0, 4000, n) / 4.0
+    gy = rs.randint(0, 4000, n) / 4.0
+    x = gx + rs.random_sample(n) * 0.2
+    y = gy + rs.random_sample(n) * 0.2
 
     def la(offsets, values):
         return pa.ListArray.from_arrays(pa.array(np.asarray(offsets), type=pa.int32()), values)
@@ -343,7 +350,7 @@ def make_large(n, seed):
     sq = ([0, 6, 6, 0, 0], [0, 0, 6, 6, 0])
     hole = ([2, 2, 4, 4, 2], [2, 4, 4, 2, 2])
     out = {}
-    out['point'] = PointArray((x, y))
+    out['point'] = PointArray((gx, gy))
     mp = verts([0, 3, -2], [0, 5, 7])
     out['multipoint'] = MultiPointArray(la(np.arange(n + 1) * 6, pa.array(mp.reshape(-1))))
     ln = verts([0, 4, 9, 2], [0, 7, -3, 11])
@@ -368,7 +375,7 @@ def make_large(n, seed):
     ring_off = np.arange(3 * n + 1) * 10
     poly_off = np.concatenate([[0], np.cumsum(np.tile(np.array([2, 1]), n))])
     out['multipolygon'] = MultiPolygonArray(la(np.arange(n + 1) * 2, la(poly_off, la(ring_off, pa.array(vals)))))
-    return out, x, y
+    return out, gx, gy
 
 
 def large_suite(n, seed, repeats=3):
@@ -546,8 +553,22 @@ def run_suite(df, right, nparts, tmp, tag, fs_seed, maxdelay, want_trace=False, 
     out['sjoin:inner'] = _h(sorted(zip(r['id'].tolist(), r['index_right'].tolist())))
     r = sjoin(ddf, right, how='left').compute()
     out['sjoin:left'] = _h(sorted(zip(r['id'].tolist(), [-1 if x != x else int(x) for x in r['index_right'].tolist()])))
-    for col in ('pt', 'mp', 'ln', 'pg', 'mpg'):
+    import dask
+    everything, nothing = (-1e4, -1e4, 1e4, 1e4), (5e4, 5e4, 6e4, 6e4)
+    x_mid = float(df['pt'].array.bounds[len(df) // 2][0])
+    y_mid = float(df['pt'].array.bounds[len(df) // 3][1])
+    degenerate = {'zero-width': (x_mid, -1e4, x_mid, 1e4), 'zero-height': (-1e4, y_mid, 1e4, y_mid),
+                  'point-box': (x_mid, y_mid, x_mid, y_mid)}
+    for col in ('pt', 'mp', 'ln', 'pg', 'mpg', 'ml'):
         s = ddf[col]
+        # degenerate boxes (what .cx[x, :] / .cx[:, y] build), evaluated in one graph together with a box
+        # that matches everything and one that matches nothing
+        for bn, b in degenerate.items():
+            got = dask.compute(s.intersects_bounds(b), s.intersects_bounds(everything), s.intersects_bounds(nothing))
+            out[f'intersects_bounds[{bn}]:{col}'] = _h([g.sort_index().tolist() for g in got])
+        g2 = ddf.set_geometry(col)
+        out[f'cx[scalar]:{col}'] = _h([sorted(g2.cx[x_mid, :].compute()['id'].tolist()),
+                                       sorted(g2.cx[:, y_mid].compute()['id'].tolist())])
         out[f'bounds:{col}'] = _floats(s.bounds.compute().sort_index().values)
         out[f'total_bounds:{col}'] = _floats(s.total_bounds)
         out[f'area:{col}'] = _floats(s.area.compute().sort_index().values)
@@ -643,6 +664,14 @@ def worker_sched(seed, tier):
     nl = 60000 if tier == 'quick' else 250000
     res['large_n'] = nl
     res['large'], res['large_unstable'], res['large_scalar_bad'] = large_suite(nl, 5)
+    # (the same inputs in every process: the seed of the run, not the per-process one)
+    from . import c18_float as F
+    base_seed = int(os.environ.get('C18_BASE_SEED', '0'))
+    bd, bu = F.big_suite(base_seed)
+    res['large'].update(bd)
+    res['large_unstable'] += bu
+    hd, res['history_bad'], res['history_evals'] = F.history_suite(base_seed, tier)
+    res['large'].update(hd)
     try:
         configs = [('synchronous', 1, 0.0, None)]
         workers = [1, 2, 4, 16]
@@ -1051,6 +1080,11 @@ def worker_clients(seed, tier):
                     break
     finally:
         shutil.rmtree(scratch, ignore_errors=True)
+
+    from . import c18_float as F
+    hf, hc = F.client_history(seed, tier, N)
+    failures.extend(hf)
+    counts['7 kinds of array shared by 8 threads putting mixed (ordinary / all / none / degenerate) queries'] = hc
 
     return {'failures': failures, 'counts': counts, 'clients': N, 'schedules': schedules,
             'dask_internal': dask_internal, 'spy_unavailable': spy_unavailable}
